@@ -87,6 +87,8 @@ def run(tier, replay):
             if e0 > 0.05:
                 win = (round(0.9 * e0, 6), 4.3) if rng.random() < 0.5 else (round(0.2 * e0, 6), round(0.6 * e0, 6))
         jobs.append(c02.dline("%s.%d.%d.d%d" % (ent["name"], il, m, n), ent["name"], il, m, win, rng.randrange(1, 2 ** 31), 3))
+    # every cascade path of every daughter level, each into a brand-new event object (reallocation while filling)
+    jobs += [l_ for (l_, m_) in c02.cascade_jobs(S, rng, 1)]
     nsh = 8
 
     def shard(i):
@@ -107,6 +109,13 @@ def run(tier, replay):
         tf = os.path.join(wd, "bb%d.ndjson" % i)
         if not os.path.exists(tf) or os.path.getsize(tf) == 0:
             continue
+        # a shard that died leaves a truncated log: keep the complete executions only
+        ls_ = open(tf).read().split("\n")
+        while ls_ and not ls_[-1].rstrip().endswith('"Leave"}'):
+            ls_.pop()
+        if not ls_:
+            continue
+        open(tf, "w").write("\n".join(ls_) + "\n")
         rr, fl = c02.validate("MCTraceBB", tf)
         if fl is None:
             raise vlib.InfraError("TraceBB: " + (rr.error or rr.out[-500:]))
